@@ -325,6 +325,10 @@ pub fn exercise_provider<P: FontTableProvider + SfntVersion>(
             }
         }
     }
+    // ---- embedded images: non-default table filters and the bitmap tables' own API ---------------
+    if full {
+        exercise_images(s, provider, rng, num_glyphs);
+    }
     // ---- writers ------------------------------------------------------------------------------
     if num_glyphs == 0 {
         // font did not load; still try the writers with a guessed glyph count
@@ -405,6 +409,162 @@ pub fn exercise_provider<P: FontTableProvider + SfntVersion>(
                         .and_then(|p| Font::new(p).map(|_| ()))
                 });
             }
+        }
+    }
+}
+
+/// Embedded images. `Font` decides on the first image query which table serves images (and, by
+/// default, never looks at EBLC/EBDT), so each filter gets a `Font` of its own; the location / data
+/// / sbix / SVG tables are also driven through their public readers directly.
+pub fn exercise_images<P: FontTableProvider + SfntVersion>(s: &mut Script<'_>, provider: &P, rng: &mut Rng, num_glyphs: u16) {
+    use allsorts::bitmap::cbdt::{CBDTTable, CBLCTable};
+    use allsorts::bitmap::sbix::Sbix;
+    use allsorts::bitmap::BitmapGlyph;
+    use allsorts::font::GlyphTableFlags;
+    use allsorts::tables::svg::SvgTable;
+    use std::convert::TryFrom;
+    const DEPTHS: [BitDepth; 5] = [BitDepth::One, BitDepth::Two, BitDepth::Four, BitDepth::Eight, BitDepth::ThirtyTwo];
+    let has_any = [tag::CBLC, tag::CBDT, tag::EBLC, tag::EBDT, tag::SBIX, tag::SVG].iter().any(|&t| provider.has_table(t));
+    if !has_any {
+        return;
+    }
+    let mut gids: Vec<u16> = (0..num_glyphs.min(24)).collect();
+    gids.extend_from_slice(&[num_glyphs.wrapping_sub(1), num_glyphs, 0x7FFF, 0xFFFF]);
+    for _ in 0..4 {
+        gids.push(rng.below(num_glyphs as usize + 2) as u16);
+    }
+    let mut ppems: Vec<u16> = vec![0, 1, 12, 16, 20, 64, 109, 128, 255, 256, 0xFFFF];
+    // ---- location / data tables directly -------------------------------------------------------
+    for (loc_tag, dat_tag, what) in [(tag::CBLC, tag::CBDT, "cblc"), (tag::EBLC, tag::EBDT, "eblc")] {
+        let loc = s.res("table_data(bitmap-loc)", || provider.table_data(loc_tag)).flatten();
+        let dat = s.res("table_data(bitmap-dat)", || provider.table_data(dat_tag)).flatten();
+        let (loc, dat) = match (loc, dat) {
+            (Some(l), Some(d)) => (l, d),
+            _ => continue,
+        };
+        let cblc = s.res("CBLCTable::read", || ReadScope::new(&loc).read::<CBLCTable<'_>>());
+        let cbdt = s.res("CBDTTable::read", || ReadScope::new(&dat).read::<CBDTTable<'_>>());
+        let (cblc, cbdt) = match (cblc, cbdt) {
+            (Some(l), Some(d)) => (l, d),
+            _ => continue,
+        };
+        s.out.deep_ok += 1;
+        let mut probe = gids.clone();
+        for size in cblc.bitmap_sizes.iter().take(8) {
+            let (a, b) = (size.inner.start_glyph_index, size.inner.end_glyph_index);
+            probe.extend_from_slice(&[a, a.wrapping_sub(1), a.wrapping_add(1), b, b.wrapping_add(1), b.wrapping_sub(1)]);
+            ppems.push(u16::from(size.inner.ppem_x));
+        }
+        probe.sort_unstable();
+        probe.dedup();
+        ppems.sort_unstable();
+        ppems.dedup();
+        let mut few_ppems: Vec<u16> = (0..5).map(|_| *rng.pick(&ppems)).collect();
+        few_ppems.sort_unstable();
+        few_ppems.dedup();
+        for &g in &probe {
+            for &ppem in &few_ppems {
+                let ppem8 = ppem.min(255) as u8;
+                for &depth in &DEPTHS {
+                    let strike = match s.call("cblc.find_strike", || cblc.find_strike(g, ppem8, depth)) {
+                        Some(Some(st)) => st,
+                        _ => continue,
+                    };
+                    s.call("strike.bit_depth", || strike.bit_depth());
+                    let bitmap = s.res("strike.bitmap", || strike.bitmap(&cbdt));
+                    if let Some(Some(bitmap)) = bitmap {
+                        s.call("bitmap.dims", || (bitmap.width(), bitmap.height(), format!("{:?}", bitmap).len()));
+                        if let Some(cx) = s.cx.as_mut() {
+                            cx.class(&format!("img:{}-glyph-bitmap-read", what));
+                        }
+                        // convert under the strike that matches the bit depth found
+                        let info = cblc.bitmap_sizes.iter().map(|b| &b.inner).find(|i| i.bit_depth == strike.bit_depth() && i.ppem_x >= ppem8)
+                            .or_else(|| cblc.bitmap_sizes.iter().map(|b| &b.inner).find(|i| i.bit_depth == strike.bit_depth()));
+                        if let Some(info) = info {
+                            let ok = s.res("BitmapGlyph::try_from(cbdt)", || BitmapGlyph::try_from((info, bitmap)).map(|_| ()));
+                            if ok.is_some() {
+                                if let Some(cx) = s.cx.as_mut() {
+                                    cx.class(&format!("img:{}-glyph-converted", what));
+                                }
+                            }
+                        }
+                    }
+                }
+            }
+        }
+    }
+    // ---- sbix / SVG directly -------------------------------------------------------------------
+    if let Some(d) = s.res("table_data(sbix)", || provider.table_data(tag::SBIX)).flatten() {
+        for n in [usize::from(num_glyphs), 0, usize::from(num_glyphs) + 1] {
+            if let Some(sbix) = s.res("Sbix::read", || ReadScope::new(&d).read_dep::<Sbix<'_>>(n)) {
+                for &g in &gids {
+                    for &ppem in ppems.iter().step_by(3) {
+                        if let Some(Some(strike)) = s.call("sbix.find_strike", || sbix.find_strike(g, ppem, BitDepth::ThirtyTwo)) {
+                            if let Some(Some(glyph)) = s.res("sbix.read_glyph", || strike.read_glyph(g)) {
+                                s.call("BitmapGlyph::from(sbix)", || BitmapGlyph::from((strike, &glyph)));
+                                if let Some(cx) = s.cx.as_mut() {
+                                    cx.class("img:sbix-glyph-read");
+                                }
+                            }
+                        }
+                    }
+                }
+            }
+        }
+    }
+    if let Some(d) = s.res("table_data(SVG)", || provider.table_data(tag::SVG)).flatten() {
+        if let Some(svg) = s.res("SvgTable::read", || ReadScope::new(&d).read::<SvgTable<'_>>()) {
+            for &g in &gids {
+                if let Some(Some(rec)) = s.res("svg.lookup_glyph", || svg.lookup_glyph(g)) {
+                    let ok = s.res("BitmapGlyph::try_from(svg)", || BitmapGlyph::try_from(&rec).map(|_| ()));
+                    if ok.is_some() {
+                        if let Some(cx) = s.cx.as_mut() {
+                            cx.class("img:svg-document-read");
+                        }
+                    }
+                }
+            }
+        }
+    }
+    // ---- through Font, one Font per filter -------------------------------------------------------
+    let filters = [
+        GlyphTableFlags::all(),
+        GlyphTableFlags::EBDT,
+        GlyphTableFlags::CBDT,
+        GlyphTableFlags::SBIX,
+        GlyphTableFlags::SVG,
+        GlyphTableFlags::SBIX | GlyphTableFlags::EBDT,
+        GlyphTableFlags::empty(),
+    ];
+    for filter in filters {
+        let font = s.res("Font::new(images)", || Font::new(RefProvider(provider)));
+        let mut font = match font {
+            Some(f) => f,
+            None => return,
+        };
+        s.call("set_embedded_image_filter", || font.set_embedded_image_filter(filter));
+        let has = s.call("has_embedded_images(filter)", || font.has_embedded_images()).unwrap_or(false);
+        if !has {
+            continue;
+        }
+        let mut few_ppems: Vec<u16> = (0..4).map(|_| *rng.pick(&ppems)).collect();
+        few_ppems.sort_unstable();
+        few_ppems.dedup();
+        for &g in gids.iter().step_by(2) {
+            for &ppem in &few_ppems {
+                for &depth in &[BitDepth::One, BitDepth::Eight, BitDepth::ThirtyTwo] {
+                    let r = s.res("lookup_glyph_image(filter)", || font.lookup_glyph_image(g, ppem, depth).map(|o| o.is_some()));
+                    if r == Some(true) {
+                        if let Some(cx) = s.cx.as_mut() {
+                            cx.class("img:font-image-found");
+                        }
+                    }
+                }
+            }
+        }
+        // presentation-sensitive character mapping consults the image tables too
+        for &ch in PROBE_CHARS.iter().take(8) {
+            s.call("lookup_glyph_index(images)", || font.lookup_glyph_index(ch, MatchingPresentation::Required, Some(VariationSelector::VS16)));
         }
     }
 }
